@@ -7,6 +7,15 @@ pub mod latitudes;
 pub mod meridians;
 pub mod triaxial;
 
+/// Verification hook: the raw built-in ellipsoid table (name, a, ay, rf, description)
+#[cfg(feature = "verif-hooks")]
+pub(crate) fn verif_ellipsoid_table() -> Vec<[&'static str; 5]> {
+    constants::ELLIPSOID_LIST
+        .iter()
+        .map(|e| [e.0, e.1, e.2, e.3, e.4])
+        .collect()
+}
+
 use crate::prelude::*;
 
 // Blanket implementations for all the Ellipsoidal traits
